@@ -5,7 +5,7 @@ IDS = [1, 2, 3, 4, 5, 6, 9, 10, 11, 12, 13, 14, 16, 21, 22, 23, 24, 25, 26, 27, 
 B = "TCAG"
 CODONS = [x + y + z for x in B for y in B for z in B]
 
-RULE = ("table N for N in -1..40 (the 25 ids and the absent ones); tr: every id x every one of the 64 codons as its own case "
+RULE = ("table N for N in 0..40 (the 25 ids and the absent ones; the extractor probes -1..255); tr: every id x every one of the 64 codons as its own case "
         "(exhaustive), every id x the 192-letter string of all codons, in upper, lower and mixed case; split: random A/C/G/T strings "
         "(length log-uniform 1..3000, random case) under every id, EVERY codon-boundary split point for lengths up to 300 (quick) / "
         "700 (thorough) and for one string of 900 / 3000 letters, 8 / 24 random split points otherwise; case: random re-casing masks; tail: every partial tail of length 0..2; "
@@ -13,12 +13,20 @@ RULE = ("table N for N in -1..40 (the 25 ids and the absent ones); tr: every id 
         "swap two entries' letters in place); the same under tables re-weighted (deep copy + OptimizeTable) from random coding sequences and under hand-written "
         "text tables; the two error branches. Out of domain (correspondence only): strings with N/U/other ASCII letters, "
         "non-ASCII runes, tables listing a triplet twice. non-trivial = the string holds at least one complete codon; distinct by case text")
-EXHAUSTIVE = {"quick": True, "thorough": True}
-TRUSTED_BASE = ["Spec/Ncbi.lean: the 25 NCBI genetic codes (standard code, reassignments, start/stop lists) typed by hand from memory, no network",
+EXHAUSTIVE = {"quick": True, "thorough": True}   # of the 25 x 64 cells (and table ids 0..40) only; strings are sampled, see RULE
+TRUSTED_BASE = ["Spec/Ncbi.lean: the 25 NCBI genetic codes (standard code, reassignments, start/stop lists) typed by hand from memory, no network; "
+                "no copy of gc.prt is pinned in the tree. An independent reviewer wrote the AAs/Starts lines of the 25 codes down from memory "
+                "(gc.prt v4.6 / Biopython CodonTable), expanded the spec back into that form and compared it letter by letter with both the spec "
+                "and codon.go's strings: no discrepancy (notes/reviews/C06.md). The spec's internal consistency is kernel-checked "
+                "(spec_standard_partition, spec_reassignments_consistent, spec_total, spec_starts_stops_consistent, spec_stops_are_star_cells). "
+                "NCBI codes 15 and 32 are not offered by the library and are outside the property; ids_complete would flag their addition",
                 "ASCII restriction: strings.ToUpper and the rune/byte mismatch of the 3-byte window are modelled on ASCII only "
                 "(the byte length of the window is modelled for every rune)",
                 "Go map semantics (last write wins, missing key reads as \"\") as modelled by `mapGet`"]
-ASSUMPTIONS = ["inputs are ASCII (theorem hypothesis `Ascii s`); A/C/G/T in either case for the one-letter-per-codon clauses"]
+ASSUMPTIONS = ["concatenation law at the split points 0 and n (and tail cases with an empty stem): one piece is the empty string, which the API "
+               "rejects (errEmtpySequenceString); the judge reads that error as the empty protein (class tag empty-piece; lemma "
+               "translate_empty_piece shows the model does the same; translate_append_api is the law for two non-empty pieces)",
+               "inputs are ASCII (theorem hypothesis `Ascii s`); A/C/G/T in either case for the one-letter-per-codon clauses"]
 PARTIAL = []
 
 def small_table(r):
